@@ -59,6 +59,9 @@ fn main() {
         ["c14", "noncodes", n, path] => c14::noncodes(n.parse().unwrap(), path),
         ["c06", "record", runs, path] => c06::record(runs.parse().unwrap(), path),
         ["c16", "replay", path] => c16::replay(path),
+        ["c15", "record", runs, path] => c15::record(runs.parse().unwrap(), path),
+        ["c15", "replay", cases, path] => c15::replay(cases, path),
+        ["c15", "atoms", path] => c15::atoms(path),
         ["c17", "replay", path] => c17::replay(path),
         ["c17", "probe", text] => c17::probe(text),
         ["c17", "record", runs, path] => c17::record(runs.parse().unwrap(), path),
